@@ -22,6 +22,17 @@ def _run(job):
             from pyvc.verify import verify_unit
             target, enum_assign, opts = payload
             return verify_unit(target, enum_assign, opts)
+        if kind == 'bounded':
+            import contracts  # noqa: F401
+            contracts.load_all()
+            from pyvc import contract as C, gens, bounded
+            target, gi, seed, tier = payload
+            ct = C.BY_NAME[target]
+            gap = ct.gaps[gi]
+            r = bounded.run_bounded(ct, gens.GENS[gap['gen']](seed, tier), clauses=gap['clauses'])
+            r.update({'target': target, 'gap': gap['name'], 'gen': gap['gen'], 'clauses': gap['clauses'],
+                      'kind': 'bounded'})
+            return r
         raise ValueError(kind)
     except Exception as e:
         import traceback
@@ -30,12 +41,13 @@ def _run(job):
                 'obligations': [], 'errors': ['crash'], 'notes': []}
 
 
-def run_units(units, opts=None, nproc=None, verbose=False):
-    """units: list of (target, enum_assign).  Returns list of result dicts (same order)."""
+def run_units(units, opts=None, nproc=None, verbose=False, extra_jobs=None):
+    """units: list of (target, enum_assign).  Returns list of result dicts (same order;
+    results of extra_jobs follow)."""
     _init()
     opts = opts or {}
-    nproc = nproc or min(len(units), int(os.environ.get('PYVC_NPROC', os.cpu_count() or 4)))
-    jobs = [('unit', (t, e, opts)) for t, e in units]
+    jobs = [('unit', (t, e, opts)) for t, e in units] + list(extra_jobs or [])
+    nproc = nproc or min(max(len(jobs), 1), int(os.environ.get('PYVC_NPROC', os.cpu_count() or 4)))
     if nproc <= 1 or len(jobs) == 1:
         return [_run(j) for j in jobs]
     ctx = mp.get_context('fork')
